@@ -324,6 +324,10 @@ func runC20(r *core.Run) {
 	for _, h := range gen.HandFamily() {
 		cases = append(cases, c05Case{Kind: "hand", Hand: h.Label})
 	}
+	// DAGs whose root under-declares a size: whole-entity walks do not depend on it
+	for _, h := range gen.HandLiars() {
+		cases = append(cases, c05Case{Kind: "hand", Hand: h.Label})
+	}
 	usize := 10
 	fanouts := []int{8, 16, 256}
 	if !r.Quick() {
